@@ -131,10 +131,51 @@ func replayFetchCheckout(c *core.Ctx, lfsBin string, b *behaviour, idx int) (*co
 			for _, p := range paths {
 				before[p], _ = os.ReadFile(filepath.Join(cloneB, PathFile(p)))
 			}
-			r := w.Env.RunIn(cloneB, nil, nil, 120*time.Second, "git", "lfs", a)
+			// include / exclude sets become pattern lists, given as -I / -X or as lfs.fetchinclude /
+			// lfs.fetchexclude, optionally padded with a pattern that matches nothing before or after
+			// (how a set is spelled is a concretisation-only dimension, chosen by the behaviour's hash)
+			inc, exc := toStrings(s["inc"]), toStrings(s["exc"])
+			spell := func(set []string, variant uint64) string {
+				var l []string
+				for _, p := range set {
+					l = append(l, PathFile(p))
+				}
+				switch variant % 3 {
+				case 1:
+					l = append([]string{"nothing-here/*"}, l...)
+				case 2:
+					l = append(l, "nothing-here/*")
+				}
+				return strings.Join(l, ",")
+			}
+			viaConfig := (b.hash/7)%2 == 1
+			cmdArgs := []string{"lfs", a}
+			how := "none"
+			if len(inc) > 0 {
+				v := spell(inc, b.hash/3)
+				if viaConfig {
+					w.Env.Git(cloneB, "config", "lfs.fetchinclude", v)
+				} else {
+					cmdArgs = append(cmdArgs, "-I", v)
+				}
+				how = fmt.Sprintf("include=%s", v)
+			}
+			if len(exc) > 0 {
+				v := spell(exc, b.hash/5)
+				if viaConfig {
+					w.Env.Git(cloneB, "config", "lfs.fetchexclude", v)
+				} else {
+					cmdArgs = append(cmdArgs, "-X", v)
+				}
+				how += fmt.Sprintf(" exclude=%s", v)
+			}
+			if viaConfig && how != "none" {
+				how += " (git config)"
+			}
+			r := w.Env.RunIn(cloneB, nil, nil, 120*time.Second, "git", cmdArgs...)
 			mk := func(assertion, why string) *core.Violation {
-				return &core.Violation{Assertion: assertion, Fields: map[string]string{"op": a},
-					Detail: map[string]interface{}{"why": why, "behaviour": json.RawMessage(b.raw), "exit": r.Code, "output": core.Tail(r.All(), 900)}}
+				return &core.Violation{Assertion: assertion, Fields: map[string]string{"op": a, "filtered": fmt.Sprint(how != "none")},
+					Detail: map[string]interface{}{"why": why, "behaviour": json.RawMessage(b.raw), "exit": r.Code, "output": core.Tail(r.All(), 900), "selection": how, "command": strings.Join(cmdArgs, " ")}}
 			}
 			if r.Code == -2 {
 				return mk("command-terminates", "command did not finish"), nil
@@ -225,7 +266,7 @@ func init() {
 		}
 		c.Level = "model_checking"
 		lfs := c.BuildLFS()
-		cfg, budget := "FetchCheckout_q.cfg", 320
+		cfg, budget := "FetchCheckout_q.cfg", 420
 		if !c.Quick() {
 			cfg, budget = "FetchCheckout_t.cfg", 3000
 		}
@@ -261,7 +302,7 @@ func init() {
 			}
 			sort.Strings(feat)
 			last := st[len(st)-1]
-			k := fmt.Sprintf("%s|%v|%s", last.str("a"), last["ok"], strings.Join(feat, ","))
+			k := fmt.Sprintf("%s|%v|inc%d|exc%d|%s", last.str("a"), last["ok"], len(toStrings(last["inc"])), len(toStrings(last["exc"])), strings.Join(feat, ","))
 			bb := &behaviour{steps: st, raw: raw, class: k, hash: fnvStr(string(raw), c.Seed)}
 			l := append(byClass[k], bb)
 			if len(l) > 4 {
@@ -295,10 +336,10 @@ func init() {
 		c.Set("traces_validated_against_impl", len(bs))
 		c.Set("evaluations", len(bs))
 		c.Set("distinct_nontrivial", len(bs))
-		c.Set("rule", "behaviours = per-edge output of spec/FetchCheckout.tla for every edge ending in fetch / pull / checkout; one per class (command x verdict x clone mode x perturbations x dropped objects x server losses x raw/deleted blobs)")
+		c.Set("rule", "behaviours = per-edge output of spec/FetchCheckout.tla for every edge ending in fetch / pull / checkout; one per class (command x verdict x sizes of the include / exclude sets x clone mode x perturbations x dropped objects x server losses x raw/deleted blobs)")
 		for i := 0; i < len(bs); i += len(bs)/4 + 1 {
 			c.Sample(json.RawMessage(bs[i].raw))
 		}
-		c.Assume("include/exclude patterns, reference stores, read-only files and `git checkout` driving the filters are not yet in the model; the second clone is made from the bare remote with lfs.url pointing at the fake server")
+		c.Assume("include / exclude sets are spelled as exact path lists (given by -I/-X or by lfs.fetchinclude/lfs.fetchexclude, optionally padded with a pattern matching nothing); glob patterns, reference stores, read-only files and `git checkout` driving the filters are not yet in the model; the second clone is made from the bare remote with lfs.url pointing at the fake server")
 	}
 }
